@@ -1,7 +1,7 @@
 #!/bin/bash
 # runs every registered quick (or thorough) check sequentially and prints one summary line per property
 tier=${1:-quick}
-cd "$(dirname "$0")/.."
+cd "$(dirname "$0")/.."; mkdir -p .work evidence
 for p in $(python3 -c "import json; print(' '.join(c['property_id'] for c in json.load(open('MANIFEST.json'))['checks']))"); do
   t0=$(date +%s)
   python3 bin/check $p --tier $tier > .work/all_$p.log 2>&1; rc=$?
